@@ -47,17 +47,28 @@ def main():
     known = driver.load_known()
     timeout_ms = 45000 if a.tier == "quick" else 120000
     try:
-        for modname in cfg["modules"]:
-            mod = importlib.import_module(modname)
+        mods = [(modname, importlib.import_module(modname)) for modname in cfg["modules"]]
+        pairs = []
+        for modname, mod in mods:
             if hasattr(mod, "contracts"):
-                cs = [c for c in mod.contracts(repo) if a.pid in c.props]
-                failed = driver.discharge_contracts(rep, modname, len(cs), timeout_ms, jobs=a.jobs)
-                driver.triage(rep, failed, (lambda n, q, mod=mod: mod.replay(rep, n, q)) if hasattr(mod, "replay") else None, ledger, known)
+                n = len([c for c in mod.contracts(repo) if a.pid in c.props])
+                if n:
+                    pairs.append((modname, n))
+        if pairs:
+            failed = driver.discharge_contracts(rep, pairs, None, timeout_ms, jobs=a.jobs)
+            by_mod = {}
+            for name, qs in failed.items():
+                short = name.split(":")[0]
+                owner = next((mod for modname, mod in mods if hasattr(mod, "contracts") and any(c.name.split(":")[0] == short and name.startswith(c.name) for c in mod.contracts(repo))), None)
+                by_mod.setdefault(id(owner), (owner, {}))[1][name] = qs
+            for owner, fl in by_mod.values():
+                driver.triage(rep, fl, (lambda n, q, mod=owner: mod.replay(rep, n, q)) if owner is not None and hasattr(owner, "replay") else None, ledger, known)
+        for modname, mod in mods:
             if hasattr(mod, "extra_checks"):
                 mod.extra_checks(rep, a.pid, ledger, known)
             if hasattr(mod, "trusted"):
                 rep.add_trusted(*mod.trusted(a.pid))
-            if hasattr(mod, "bounded"):
+            if hasattr(mod, "bounded") and (modname in cfg.get("bounded_from", cfg["modules"])):
                 mod.bounded(rep, a.pid, known)
     except Exception as e:  # noqa: BLE001
         import traceback
